@@ -1,5 +1,10 @@
 #!/bin/bash
 # Builds /repo (current working tree, -tags verif) and the harness into /verif/.build/bin.
+#   dcat dgrep dmap dtail dtailhealth : the subject's binaries
+#   vcheck                            : drivers (no dependency on dtail's internal packages)
+#   vcheck-w-<name>                   : one worker per group of in-process tiers (build tag w_<name>); a worker
+#                                       that does not compile against the current tree is left out (its tier is
+#                                       skipped by the drivers) instead of failing the whole build
 # "race" as first argument additionally builds -race variants (suffix -race).
 set -u
 VERIF_DIR="$(cd "$(dirname "$0")/.." && pwd)"
@@ -10,21 +15,28 @@ mkdir -p "$BIN"
 exec 9>"$VERIF_DIR/.build/lock"
 flock 9
 cp /repo/go.sum "$VERIF_DIR/harness/go.sum.repo" 2>/dev/null
-# harness go.sum = repo's go.sum + harness-only modules (porcupine)
 cat "$VERIF_DIR/harness/go.sum.repo" "$VERIF_DIR/harness/go.sum.extra" 2>/dev/null | sort -u > "$VERIF_DIR/harness/go.sum"
 rm -f "$VERIF_DIR/harness/go.sum.repo"
-build() { # dir out pkg [extra flags]
-  local dir="$1" out="$2" pkg="$3"; shift 3
-  (cd "$dir" && go build -tags verif "$@" -o "$out" "$pkg") || exit 1
-}
 for c in dcat dgrep dmap dtail dtailhealth; do
-  build /repo "$BIN/$c" "./cmd/$c" || exit 1
+  (cd /repo && go build -tags verif -o "$BIN/$c" "./cmd/$c") || exit 1
 done
-build "$VERIF_DIR/harness" "$BIN/vcheck" ./cmd/vcheck || exit 1
+(cd "$VERIF_DIR/harness" && go build -tags verif -o "$BIN/vcheck" ./cmd/vcheck) || exit 1
+WORKERS="server c03 c04 mapr c08 c10 c16 c18"
+for w in $WORKERS; do
+  if ! (cd "$VERIF_DIR/harness" && go build -tags "verif w_$w" -o "$BIN/vcheck-w-$w" ./cmd/vcheck) 2>"$BIN/vcheck-w-$w.builderr"; then
+    echo "WARNING: worker $w does not build against the current tree (its in-process tier will be skipped):"
+    head -5 "$BIN/vcheck-w-$w.builderr"
+    rm -f "$BIN/vcheck-w-$w"
+  else
+    rm -f "$BIN/vcheck-w-$w.builderr"
+  fi
+done
 if [ "${1:-}" = "race" ]; then
   for c in dcat dgrep dmap dtail; do
-    build /repo "$BIN/$c-race" "./cmd/$c" -race || exit 1
+    (cd /repo && go build -tags verif -race -o "$BIN/$c-race" "./cmd/$c") || exit 1
   done
-  build "$VERIF_DIR/harness" "$BIN/vcheck-race" ./cmd/vcheck -race || exit 1
+  for w in server mapr; do
+    (cd "$VERIF_DIR/harness" && go build -tags "verif w_$w" -race -o "$BIN/vcheck-w-$w-race" ./cmd/vcheck) 2>/dev/null || rm -f "$BIN/vcheck-w-$w-race"
+  done
 fi
 exit 0
